@@ -274,7 +274,11 @@ impl<'a> Chunks<'a> {
                 false => entry.remove().unwrap().into_inner(), // this can't fail due to the previous get_or_insert_with
             };
 
-        recv.assembler.ensure_ordering(ordered)?;
+        if let Err(e) = recv.assembler.ensure_ordering(ordered) {
+            // A refused request leaves the stream as it was
+            streams.recv.insert(id, Some(StreamRecv::Open(recv)));
+            return Err(e.into());
+        }
         Ok(Self {
             id,
             ordered,
